@@ -1366,3 +1366,96 @@ Definition cov_oas_decode (bs : list N) : option layout :=
   cov_loop (S (length bs)) (flag =? 0) (d_init u) bs.
 
 Definition covered (bs : list N) : Prop := cov_oas_decode bs <> None.
+
+(* ================================================================== which guard a stream fails (run-time labelling)
+   For a stream the strict decoder accepts and the covered decoder does not, [diag_oas] lists the guards that fail, record by
+   record (the state is advanced with the strict decoder's own dec_record; cov_record works on that state).  It only labels
+   the findings reported by the check (checks/c04r.py); no theorem depends on it.  Codes: 1 (c1) 2 (c2) 3 (c3) 4 (c4)
+   5 (c5) 61 / 62 / 63 (c6 after TEXTSTRING / LAYERNAME / PROPNAME, PROPSTRING) 7 (c7) 8 (c8) 0 unclassified. *)
+Definition elem_tags (e : element) : N * N :=
+  match e with
+  | E_rect l d _ _ _ _ _ | E_poly l d _ _ _ _ | E_path l d _ _ _ _ _ _ _ | E_trap _ l d _ _ _ _ _ _ _
+  | E_ctrap l d _ _ _ _ _ _ | E_circle l d _ _ _ _ | E_text _ l d _ _ _ => (l, d)
+  | E_place _ _ _ _ _ _ => (0, 0)
+  end.
+Definition elem_rep (e : element) : option srep :=
+  match e with
+  | E_rect _ _ _ _ _ _ r | E_poly _ _ _ _ _ r | E_path _ _ _ _ _ _ _ _ r | E_trap _ _ _ _ _ _ _ _ _ r
+  | E_ctrap _ _ _ _ _ _ _ r | E_circle _ _ _ _ _ r | E_text _ _ _ _ _ r | E_place _ _ _ _ _ r => r
+  end.
+Definition elem_npts (e : element) : N :=
+  match e with
+  | E_poly _ _ pts _ _ _ | E_path _ _ _ _ _ pts _ _ _ => N.of_nat (length pts)
+  | _ => 0
+  end.
+Definition elem_guard (id : N) (m : modal) (bs : list N) : N :=
+  let r := match id with
+           | 17 | 18 => dec_placement id m bs
+           | 19 => dec_text m bs
+           | 20 => dec_rectangle m bs
+           | 21 => dec_polygon m bs
+           | 22 => dec_path m bs
+           | 23 | 24 | 25 => dec_trapezoid id m bs
+           | 26 => dec_ctrapezoid m bs
+           | 27 => dec_circle m bs
+           | _ => None
+           end in
+  match r with
+  | None => 0
+  | Some (e, _, _) =>
+      if (id =? 26) && match cov_ctrapezoid_gen true m bs with Some _ => true | None => false end then 5
+      else if (4294967296 <=? fst (elem_tags e)) || (4294967296 <=? snd (elem_tags e)) then 2
+      else if match e with E_path _ _ _ _ _ [] _ _ _ => true | _ => false end then 4
+      else if (lim31 <=? elem_npts e) || match elem_rep e with Some rp => negb (rep_small rp) | None => false end then 3
+      else 1
+  end.
+Definition diag_record (last : N) (d : dstate) (bs : list N) : N :=
+  match bs with
+  | [] => 0
+  | id :: t =>
+      if 128 <=? id then 1 else
+      match id with
+      | 2 => 8
+      | 3 | 4 | 5 | 6 | 7 | 8 | 9 | 10 => 3
+      | 13 => 7
+      | 28 | 29 =>
+          match d_target d with
+          | T_other => match last with 5 | 6 => 61 | 11 | 12 => 62 | _ => 63 end
+          | _ => 1
+          end
+      | _ => elem_guard id (d_modal d) t
+      end
+  end.
+(* the record that determines what the following properties attach to *)
+Definition diag_last (last : N) (bs : list N) : N :=
+  match bs with
+  | id :: _ => if (128 <=? id) || (id =? 0) || (id =? 15) || (id =? 16) || (id =? 28) || (id =? 29) then last else id
+  | [] => last
+  end.
+Fixpoint diag_loop (fuel : nat) (ois : bool) (last : N) (d : dstate) (bs : list N) (acc : list N) : list N :=
+  match fuel with
+  | O => acc
+  | S f =>
+      let acc1 := match cov_record ois d bs with None => diag_record last d bs :: acc | Some _ => acc end in
+      match dec_record ois d bs with
+      | Some (Cont d1 bs1) => diag_loop f ois (diag_last last bs) d1 bs1 acc1
+      | _ => acc1
+      end
+  end.
+(* guards failed by a stream spec_oas_decode accepts, in stream order *)
+Definition diag_oas (bs : list N) : list N :=
+  match strip_prefix magic bs with
+  | None => []
+  | Some b1 =>
+      let g0 := match b1 with 1 :: _ => [] | _ => [1] end in
+      match (let? '(_, b2) := rd_uint b1 in let? '(_, b3) := rd_string b2 in Some b3) with
+      | None => []
+      | Some b3 =>
+          let g1 := if small1 b3 then g0 else 1 :: g0 in
+          match (let? '(u, b4) := rd_real b3 in let? '(flag, b5) := rd_uint b4 in
+                 let? '(_, b6) := (if flag =? 0 then rd_count rd_uint 12 b5 else Some ([], b5)) in Some (u, flag, b6)) with
+          | None => []
+          | Some (u, flag, b6) => rev (diag_loop (S (length b6)) (flag =? 0) 1 (d_init u) b6 g1)
+          end
+      end
+  end.
